@@ -119,6 +119,8 @@ class Annotator:
                 out.append(["for", s[1], ca, b])
             elif k == "break":
                 out.append(["break"])
+            elif k == "continue":
+                out.append(["continue"])
             elif k == "pass":
                 continue
             else:
@@ -150,6 +152,8 @@ def wire_stmts(stmts, consts):
             out.append([5, s[1], wire_ann(s[2], consts), wire_stmts(s[3], consts)])
         elif k == "break":
             out.append([6])
+        elif k == "continue":
+            out.append([10])
         elif k == "write":
             out.append([7, wire_ann(s[1], consts)])
         elif k == "sleep":
@@ -205,6 +209,10 @@ def model_shape(nodes, ctexts, meta, exprs):
             out.append(["sleep", folded(exprs[n[1]], ctexts[n[1]])])
         elif t == 9:
             out.append(["exprs", ctexts[n[1]]])
+        elif t == 10:
+            out.append(["continue"])
+        elif t == 11:
+            out.append(["return"])
     return out
 
 
